@@ -411,10 +411,18 @@ Proof.
   intros _ s [HB (n0 & En & fl0 & E & HP)]. split; [exact HB|]. unfold eqP in *. rewrite E, En. lia.
 Qed.
 
+Lemma Keepk_check_flow_closer seq : Keepk (check_flow_closer (I:=I) seq).
+Proof.
+  intros s a s' HB. unfold check_flow_closer, bind, get.
+  destruct (sc_ifms s) as [|st r]; [intros H; inversion H; subst; apply kpost_refl; auto|].
+  cbv zeta. destruct (Bool.eqb _ _); [intros H; inversion H; subst; apply kpost_refl; auto|discriminate].
+Qed.
+Hint Resolve Keepk_check_flow_closer : kk.
+
 Lemma Tr_fetch_flow_collection_end seq : Tr (SkP eqP) (fetch_flow_collection_end ops F seq) (fun _ => SkP eqP).
 Proof.
   unfold fetch_flow_collection_end.
-  trk. eapply Tr_bind; [apply Tr_decrease|intro; cbv beta]. trk. trk.
+  trk. trk. eapply Tr_bind; [apply Tr_decrease|intro; cbv beta]. trk. trk.
   eapply Tr_bind; [apply Tr_pop_ifms|intro; cbv beta]. trk. trk. trk.
   eapply Tr_bind; [apply Tr_SkP_Keepk; apply Keepk_modify; intros s; destruct (_ <? _)%N; unfold vsame; cbn; auto 10|intro; cbv beta].
   trk.
